@@ -147,7 +147,18 @@ func (t *tr) assignExt(x *ast.AssignStmt, stmts []ast.Stmt, k cont) (string, boo
 	}
 	// a, b, err = f(..)   followed by a naked   return      (named results)
 	if len(x.Lhs) >= 2 && len(x.Rhs) == 1 && last == "err" && len(stmts) > 1 && t.spec.InitResults && t.spec.Ret == RetValErr {
-		if ret, ok := stmts[1].(*ast.ReturnStmt); ok && len(ret.Results) == 0 {
+		nxt := 1 // bookkeeping statements (span.End()) between the assignment and the return carry no decision
+		for nxt+1 < len(stmts) {
+			es, isES := stmts[nxt].(*ast.ExprStmt)
+			if !isES {
+				break
+			}
+			if c, isCall := es.X.(*ast.CallExpr); !isCall || !ignorableCall(c) {
+				break
+			}
+			nxt++
+		}
+		if ret, ok := stmts[nxt].(*ast.ReturnStmt); ok && len(ret.Results) == 0 {
 			if call, ok := x.Rhs[0].(*ast.CallExpr); ok {
 				var names []string
 				for _, l := range x.Lhs[:len(x.Lhs)-1] {
@@ -194,6 +205,10 @@ func (t *tr) stmtExt(s ast.Stmt, stmts []ast.Stmt, k cont) (string, bool) {
 		// break inside a switch case (not inside a loop body): control continues after the switch
 		if x.Tok == token.BREAK && x.Label == nil && len(t.breakK) > 0 && t.loop == 0 && t.loopDepth == 0 {
 			return t.breakK[len(t.breakK)-1](), true
+		}
+		// continue inside the body of a state-threading loop (LoopStyle "state"): the round ends with the current state
+		if x.Tok == token.CONTINUE && x.Label == nil && len(t.continueK) > 0 {
+			return t.continueK[len(t.continueK)-1](), true
 		}
 		// continue inside the body of a generically translated range loop: this iteration decides nothing
 		if x.Tok == token.CONTINUE && x.Label == nil && t.spec.Closures && (t.loop > 0 || t.loopDepth > 0) && len(t.breakK) == 0 {
